@@ -31,7 +31,8 @@ def bad_indexes(res):
 
 
 def run(ctx, prop):
-    n = 6 if ctx.tier == "quick" else 7
+    # thorough: every string <= 8 for C03 (2.0M inputs, about 10 min), <= 7 for C14 (shares the enumeration)
+    n = 6 if ctx.tier == "quick" else (8 if prop == "C03" else 7)
     nrand = 3000 if ctx.tier == "quick" else 40000
     drv = go_build(ctx, "drivers/txtar")
     violations, drift = [], []
